@@ -369,6 +369,79 @@ def rule_local_escape(chk, prog):
         raise AnalysisBroken("LOCAL-ADDR-ESCAPE examined no function")
 
 
+def rule_buffer_fit(chk, prog):
+    from fractions import Fraction
+    from ..microai.interp import Interp, Obj, Vec, Oracle, AssertFail, Unsupported, Thrown, default_obj, UNINIT
+    r = chk.rule("BUFFER-FIT", "topology::Edge::getRoute interpreted on abstract edges (open paths with 1-3 segments, cycles with 3-4 "
+                 "segments): the arrays of the returned Route are written exactly within their bounds -- every one of the n entries, "
+                 "nothing beyond (ForEach visits nSegments+1 edge points, on a cycle too)", floor=4)
+    fn = prog.fn("topology::Edge::getRoute")
+    hooks = {"topology::EdgePoint::posX": lambda it, n, env: it.ev(call_object(n), env).f["_x"],
+             "topology::EdgePoint::posY": lambda it, n, env: it.ev(call_object(n), env).f["_y"]}
+
+    def mk(npts, cyc):
+        pts = [default_obj(prog, "topology::EdgePoint", {"_x": Fraction(i), "_y": Fraction(10 * i)}) for i in range(npts)]
+        seq = pts + [pts[0]] if cyc else pts
+        e = default_obj(prog, "topology::Edge", {})
+        segs = []
+        for i in range(len(seq) - 1):
+            sg = default_obj(prog, "topology::Segment", {"start": seq[i], "end": seq[i + 1], "edge": e})
+            seq[i].f["outSegment"] = sg
+            seq[i + 1].f["inSegment"] = sg
+            segs.append(sg)
+        e.f["firstSegment"], e.f["lastSegment"], e.f["nSegments"] = segs[0], segs[-1], len(segs)
+        return e, len(seq)
+    for npts, cyc in ((2, False), (3, False), (4, False), (3, True), (4, True)):
+        e, visited = mk(npts, cyc)
+        it = Interp(prog, Oracle([]), hooks=hooks)
+        r.count()
+        inst = "%s edge with %d segments" % ("cyclic" if cyc else "open", e.f["nSegments"])
+        try:
+            rt = it.call(fn, e, None, None, arg_values=[])
+        except AssertFail as ex:
+            r.bad(inst, fn.where(), "the route arrays are written out of bounds (%s): a heap overflow in the compiled library" % ex)
+            continue
+        except (Unsupported, Thrown) as ex:
+            raise AnalysisBroken("Edge::getRoute outside the interpreter subset: %s" % ex)
+        xs, ys = rt.f["xs"].items, rt.f["ys"].items
+        if rt.f["n"] != len(xs) or len(xs) != len(ys):
+            r.bad(inst, fn.where(), "Route::n = %s but the arrays hold %d / %d entries" % (rt.f["n"], len(xs), len(ys)))
+        elif any(v is UNINIT for v in xs + ys):
+            r.bad(inst, fn.where(), "%d of the %d route entries are never written (indeterminate coordinates)" % (sum(v is UNINIT for v in xs), len(xs)))
+        elif len(xs) != visited:
+            r.bad(inst, fn.where(), "the route has %d points for %d visited edge points" % (len(xs), visited))
+        else:
+            r.ok(inst, fn.where())
+
+
+def rule_action_identity(chk, prog):
+    from ..microai.interp import Interp, Obj, Oracle, AssertFail, Unsupported, Thrown, default_obj
+    r = chk.rule("ACTION-IDENTITY", "Avoid::ActionInfo::operator== interpreted on all pairs of queued actions over 3 action types x 2 objects x "
+                 "firstMove in {false, true}: two entries denote the same queued action exactly when type and object agree -- the lookups "
+                 "Router::moveShape / deleteShape / addShape build (always with firstMove = false) must find an entry queued with "
+                 "firstMove = true, otherwise the obstacle is queued twice and processed (or deleted) twice", floor=1)
+    fn = prog.fn("Avoid::ActionInfo::operator==")
+    objs = [Obj("Avoid::ShapeRef", {"_n": 0}), Obj("Avoid::ShapeRef", {"_n": 1})]
+    cfgs = [(t, o, fm) for t in (0, 1, 2) for o in (0, 1) for fm in (False, True)]
+    n = 0
+    bad = None
+    for a in cfgs:
+        for b in cfgs:
+            A = default_obj(prog, "Avoid::ActionInfo", {"type": a[0], "objPtr": objs[a[1]], "firstMove": a[2]})
+            B = default_obj(prog, "Avoid::ActionInfo", {"type": b[0], "objPtr": objs[b[1]], "firstMove": b[2]})
+            it = Interp(prog, Oracle([]))
+            try:
+                got = it.call(fn, A, None, None, arg_values=[B])
+            except (Unsupported, AssertFail, Thrown) as e:
+                raise AnalysisBroken("ActionInfo::operator== outside the interpreter subset: %s" % e)
+            n += 1
+            want = a[0] == b[0] and a[1] == b[1]
+            if bool(got) != want:
+                bad = bad or "actions (type %d, object %d, firstMove %s) and (type %d, object %d, firstMove %s) compare %s" % (a + b + ("equal" if got else "different",))
+    r.count(n)
+    (r.bad if bad else r.ok)("ActionInfo::operator==", fn.where(), bad or "%d pairs" % n)
+
+
 def run(chk):
     prog = chk.load()
     cg = CallGraph(prog)
@@ -378,3 +451,5 @@ def run(chk):
     rule_del_guard(chk, prog)
     rule_erase_advance(chk, prog)
     rule_local_escape(chk, prog)
+    rule_buffer_fit(chk, prog)
+    rule_action_identity(chk, prog)
